@@ -9,7 +9,7 @@ ASSUMPTIONS = [
 ]
 STUBS = ['SxPacker (struct.Struct)', 'SymStream (io.BytesIO)']
 OUTSIDE = [
-    'LEB128 encodings longer than the stated byte bound (quick 10, thorough 12 bytes)',
+    'LEB128 encodings longer than the stated byte bound (quick 16, thorough 24 bytes)',
     'C strings longer than 200 bytes',
     'exception message texts',
 ]
@@ -267,10 +267,10 @@ def _cstr_lens(tier):
 
 HARNESSES = [
     H('h16_1_leb128', h_leb,
-      lambda tier: [dict(n=n, signed=s) for s in (False, True) for n in range(0, (11 if tier == 'quick' else 13))],
+      lambda tier: [dict(n=n, signed=s) for s in (False, True) for n in range(0, (17 if tier == 'quick' else 25))],
       expect=('ok', 'parse_error'),
       desc='ULEB128/SLEB128._parse on every byte string of length n (all bytes symbolic): value, exact consumption, truncation error',
-      bounds={'quick': 'all byte strings of length 0..10', 'thorough': 'all byte strings of length 0..12'}),
+      bounds={'quick': 'all byte strings of length 0..16', 'thorough': 'all byte strings of length 0..24'}),
     H('h16_2_int24', h_int24,
       lambda tier: [dict(n=n, little=l) for l in (False, True) for n in range(0, 6)],
       expect=('ok', 'parse_error'),
